@@ -157,6 +157,36 @@ CLAIMS.update({
          "3.2, 3.3, 4 (C14)"),
 })
 
+# technique additions of the second building round (rule names as in props.go / DESIGN.md A.2)
+EXTRA = {
+ "C01": "typestate/dominance analysis of the lookahead token in every parse(); reset and per-item dataflow rules; final-state guard of minimize",
+ "C02": "typestate analysis of p.next positions; audited field-role table for syntax.Input flags",
+ "C03": "min-update idiom check of the SCC pass; sentinel-index guards; planner scenarios of ruleAction",
+ "C04": "all-pairs-store path check of Optimize rows; operand-order check of compiler.or",
+ "C05": "scratch-histogram reset analysis; loop-bound check of the bit-set scans; option-key to field map",
+ "C06": "final-state guard; lock-step of the two rule copies; injectivity of lookahead-row signature elements; memo-key agreement with generated lookahead()",
+ "C07": "phase coverage of terminal-transition follow sets; exhaustion of collecting loops; who-may-call rule for Lexer.Next",
+ "C08": "decision-table extraction of pickLookahead (120 polarity sequences) and of ruleAction's planner branch; memo-key agreement",
+ "C10": "finite-state exploration of in-place range filters (len(out)-i); call-order of class assembly; Offset/Column lock-step",
+ "C11": "reader/writer agreement of the compressed rune map; checkpoint reset on every edge into the scan loop",
+ "C12": "cursor step discipline; reader/writer agreement of the compressed rune map; checkpoint reset",
+ "C13": "terminal-boundary comparison audit; separator placement under the recursion flag",
+ "C14": "terminal-boundary comparison audit (44 sites); wrapper order of convertRules; escape analysis through callees that retain slices; renumbering coverage",
+ "C15": "all-paths reachability of the set-contribution test",
+ "C16": "marker-free remap counter; Pos coverage of extracted references; sharing-key and renumbering field coverage",
+ "C17": "interning-pair rule; decision-table agreement of NeedsSession with the template's session struct; all-paths enumeration of file selection against template imports; call/definition arity agreement on template trees",
+ "C18": "global map aliased through struct fields",
+ "C19": "constant propagation of stream.recoveryMode; histogram reset range",
+ "C20": "must-write analysis of Init for every run-state field of Lexer/Parser/TokenStream",
+ "C21": "save/restore dominance; sibling check of the two Tarjan implementations; unconditional rule-class key components",
+ "C22": "lookup-index guard; in-progress memo reachability; valid-anchor guard for optional nodes",
+ "C23": "source-cursor bounds of the grammar lexer; sentinel-index guards in verbose conflict explanations",
+ "C25": "in-place merge exploration; min-update idiom and Tarjan sibling checks",
+ "C28": "explicit-id path check; non-empty return analysis of ident.Produce",
+ "C29": "must-return of parser errors in ast.Parse",
+ "C30": "three-copy agreement of %prec; Reference literals carry Model; kinds reaching ExprString",
+}
+
 NA = {
  "C26": "graph algorithms (SCC order, closure, transposition, longest path) are statements about values computed by loops over runtime graphs; util/graph has no encoding, guard, pairing or ownership clause whose violation is visible in the shape of the code — no sound static necessary condition within reach",
  "C27": "minimality of a Myers edit script and applicability of rendered hunks are numerical/round-trip properties of runtime data; no structural clause to check statically",
@@ -179,7 +209,7 @@ def main():
             "engine": "tmsa",
             "level_claimed": {"category": "other", "text": text, "design_ref": "DESIGN.md " + ref},
             "level_note": note,
-            "technique": "static analysis: " + tech,
+            "technique": "static analysis: " + tech + ("; " + EXTRA[pid] if pid in EXTRA else "") + " (rule list and per-rule statement: evidence coverage.explanation)",
         })
     na = []
     for pid in ALL:
